@@ -439,6 +439,7 @@ func init() {
 		ID:    "C05",
 		Level: "exploration",
 		Rule: "each case = one (command, functional option set, generated input of 0/1/2/2500/4000 records: annotated FASTA/FASTQ, overlapping read pairs, tagged amplicons + sample sheet, templates with planted priming sites); the command is run with a reference configuration and then with 7 (quick) / 24 (thorough) other (--max-cpu in 1..32, --batch-size in 1..N, GOMAXPROCS, injected yield seeds, plain repetitions) with recycled buffers poisoned (0xDB); oracle: exit 0, byte-identical stdout, no poison byte; the same matrix on -race builds (reports with a site in the anchored files); porcupine linearizability of concurrent attribute operations on one sequence. " +
+			"Added later: reads trimmed to 1-12 bases in the pair generator, obiclean annotations for obisummary, compressed outputs (-Z: raw bytes compared, poison looked for in the inflated text), obipcr --fragmented on 100-140 kb templates with products inside the overlaps of consecutive pieces. " +
 			"distinct_nontrivial = distinct (command option set, input size, max-cpu, batch-size, yield on/off, GOMAXPROCS) configurations compared with the reference on inputs of more than 2 records, plus linearizability histories",
 		Assume: []string{"metamorphic oracle: no model of the commands is needed, only equality with the reference configuration", "obicsv --auto is excluded (documented as based on the first batch)", "the annotation map exists before it is shared (as in every command)"},
 		Subs: []core.Sub{
